@@ -114,6 +114,10 @@ def fix_prog(ctx):
             ctx.check(True, "layout not applicable on this path")
             return
         cut = sp[p["j"]][1] + p["o"]
+        if p["o"] == 0 and p["j"] > 0:
+            # token boundary: the separating blanks go to the continuation line (the reader strips
+            # trailing blanks of a physical line, and fparser keeps blanks significant in fixed form)
+            cut = sp[p["j"] - 1][2]
         inlit = sp[p["j"]][0] == "s" and p["o"] > 0
         pad = ""
         if inlit:
@@ -133,9 +137,10 @@ def fix_prog(ctx):
             body = ctx.chars("cbody", 1, "print") if p["sym"] == "intro" else "x"
             out.append(intro + body + " a comment")
         rest = text[cut:]
-        if p["var"] == "two" and len(rest) > 1 and not inlit:
-            out.append("     " + cont + rest[:1])
-            out.append("     " + cont + rest[1:])
+        lead = len(rest) - len(rest.lstrip(" "))
+        if p["var"] == "two" and len(rest) > lead + 1 and not inlit:
+            out.append("     " + cont + rest[:lead + 1])
+            out.append("     " + cont + rest[lead + 1:])
         else:
             out.append("     " + cont + rest)
     fixed = "\n".join(out) + "\n"
@@ -143,10 +148,6 @@ def fix_prog(ctx):
     tag = _amp_tag(out)
     if lit_blank:
         tag += " [blank in front of column 73 inside a continued character literal]"
-    if p["sym"] == "cont" and cont == "!":
-        tag += " [continuation mark '!' in column 6]"
-    if p["sym"] == "cont" and (cont == "'" or cont == '"'):
-        tag += " [continuation mark is a quote character]"
     fmt = get_source_info_str(fixed)
     ctx.observe("is_free", fmt.is_free)
     ctx.check(not fmt.is_free, "fixed-form source detected as free form" + tag)
